@@ -78,6 +78,11 @@ func c19Apply(e *Env, o c19Op) string {
 	}
 	files := func() []storagetypes.UnifiedFile { return sk.GetAllFileByMerkle(e.Ctx) }
 	switch o.Op {
+	case "fund":
+		if err := e.Fund(a, "ujkl", o.N); err != nil {
+			return OutFail
+		}
+		return OutOk
 	case "height":
 		e.At(e.Height+o.N, e.Time.Add(time.Duration(o.N)*6*time.Second))
 		return OutOk
@@ -214,16 +219,36 @@ func c19Apply(e *Env, o c19Op) string {
 	// parameter values at the edge of what each parameter's validator admits (what a governance change can store):
 	// written through the subspace one key at a time, exactly as a ParameterChangeProposal does
 	case "params.Edge":
-		return direct(func() {
-			p := e.App.MintKeeper.GetParams(e.Ctx)
-			p.MintDenom = []string{"", "stake", "ujkl", " "}[o.N%4]
-			p.DevGrantsRatio, p.StakerRatio = 8-o.N%3, 80+o.N%3
-			e.App.MintKeeper.SetParams(e.Ctx, p)
-			sp := sk.GetParams(e.Ctx)
-			sp.ProofWindow, sp.CheckWindow, sp.ChunkSize = 1+o.N%7, 1+o.N%5, 1+o.N%4096
-			sp.PolRatio, sp.ReferralCommission = o.N%100, o.N%50
-			sk.SetParams(e.Ctx, sp)
-		})
+		// one key at a time through the parameter subspace, validated by the key's own validator: exactly what the
+		// x/params proposal handler does with a passed ParameterChangeProposal (Keeper.SetParams is not involved)
+		pk := c15ParamsKeeper(e)
+		set := func(space, key, jsonValue string) string {
+			ss, ok := pk.GetSubspace(space)
+			if !ok {
+				return OutFail
+			}
+			var err error
+			if pn := Guard(func() { err = ss.Update(e.Ctx, []byte(key), []byte(jsonValue)) }); pn != "" {
+				return OutPanic
+			}
+			if err != nil {
+				return OutFail
+			}
+			return OutOk
+		}
+		q := func(v int64) string { return fmt.Sprintf("%q", fmt.Sprint(v)) }
+		outs := []string{
+			set("jklmint", "MintDenom", fmt.Sprintf("%q", []string{"", "stake", "ujkl", " "}[o.N%4])),
+			set("jklmint", "DevGrantsRatio", q(8-o.N%3)), set("jklmint", "StakerRatio", q(80+o.N%3)),
+			set("storage", "ProofWindow", q(1+o.N%7)), set("storage", "CheckWindow", q(1+o.N%5)), set("storage", "ChunkSize", q(1+o.N%4096)),
+			set("storage", "POLRatio", q([]int64{0, 40, 80, 99, 100}[o.N%5])), set("storage", "Referrals", q([]int64{25, 0, 50, 100}[o.N%4])),
+		}
+		for _, x := range outs {
+			if x == OutOk {
+				return OutOk
+			}
+		}
+		return OutFail
 	}
 	return "unknown-op"
 }
@@ -671,6 +696,36 @@ func c19Name(i int) string {
 	return []string{"alpha", "bravo1", "charlie", "delta9", "echoes", "foxtrot"}[i%6]
 }
 
+// c19CrowdHistory: a busy chain — more than one page (100) of every record kind a message can create, so that an
+// export that lists through a paginated query, or in batches, shows what it drops.
+func c19CrowdHistory() c19History {
+	const n = 104
+	var ops []c19Op
+	add := func(o c19Op) { ops = append(ops, o) }
+	add(c19Op{Op: "rns.Params", B: 2})
+	add(c19Op{Op: "oracle.Params", B: 2})
+	add(c19Op{Op: "storage.BuyStorage", A: 4, N: 4})
+	for i := 0; i < n; i++ {
+		add(c19Op{Op: "filetree.PostKey", A: 100 + i, N: int64(i)})
+		add(c19Op{Op: "filetree.MakeRoot", A: 100 + i, N: int64(i)})
+		add(c19Op{Op: "filetree.SetFiles", A: 1, N: int64(1000 + i)})
+		add(c19Op{Op: "rns.Bid", A: 1, N: int64(i), S: fmt.Sprintf("crowdbid%03d", i)})
+		add(c19Op{Op: "rns.Register", A: 2, N: int64(i), S: fmt.Sprintf("crowdname%03d", i)})
+		add(c19Op{Op: "rns.List", A: 2, N: int64(i), S: fmt.Sprintf("crowdname%03d", i)})
+		add(c19Op{Op: "rns.SetWhois", A: 3, N: int64(i)})
+		add(c19Op{Op: "notifications.Create", A: 200 + i, B: 2, N: int64(i)})
+		add(c19Op{Op: "notifications.Block", A: 300 + i, B: 1})
+		add(c19Op{Op: "oracle.CreateFeed", A: 1, S: fmt.Sprintf("crowdfeed%03d", i)})
+		add(c19Op{Op: "storage.PostFile", A: 4, N: int64(i)})
+		add(c19Op{Op: "fund", A: 400 + i, N: 20_000_000_000})
+		add(c19Op{Op: "storage.InitProvider", A: 400 + i, N: int64(i)})
+		add(c19Op{Op: "rns.Init", A: 500 + i})
+		add(c19Op{Op: "height", N: 1})
+	}
+	add(c19Op{Op: "jklmint.BlockMint"})
+	return c19History{Name: "crowd", What: "more than 100 records of every kind", Ops: ops}
+}
+
 func c19RandomHistory(p *PRNG, k int) c19History {
 	acct := func() int { return 1 + p.Intn(c19Accounts) }
 	var ops []c19Op
@@ -885,6 +940,16 @@ func runC19(r *RunCtx) error {
 		merge(res, filepath.Base(f))
 		emit(res, h, false)
 		r.Hist("corpus", filepath.Base(f))
+	}
+	if replayFile == "" {
+		h := c19CrowdHistory()
+		res, err := c19RunHistory(r, h, false)
+		if err != nil {
+			return fmt.Errorf("crowd history: %w", err)
+		}
+		merge(res, "crowd")
+		emit(res, h, false)
+		r.Hist("corpus", "crowd")
 	}
 	n := r.Scale(10, 600)
 	if replayFile != "" {
